@@ -65,6 +65,14 @@ func init() {
 			}
 			c09Scenario(r, 11000000+i, "C17")
 		})
+		nrh := scale(r, 600, 30000)
+		vk.Parallel(nrh, 16, func(i int) {
+			if r.Skip(12000000 + i) {
+				return
+			}
+			c17RetryHedge(r, 12000000+i)
+		})
+		r.Rule += " Plus executions that both retry and hedge (either nesting): done event identity, Retries == OnRetry events, Hedges == OnHedge events."
 		r.Rule += " Plus hedge scenarios with overlapping attempts: exactly one attempt has IsHedge()==false, the number with true equals the OnHedge events, counters inside attempts stay within their bounds and the done event satisfies Attempts == 1 + Hedges + Retries."
 		r.Rule += " Plus cancellation scenarios (context, deadline, Timeout, async Cancel landing in delays, waits, listeners and the function): the done event must satisfy Attempts == 1 + Retries + Hedges."
 	})
